@@ -1013,15 +1013,45 @@ impl Visitor<Diagnostic> for LibraryRenderer {
         self.write_ws("(");
 
         if let Some(qualifier) = &node.qualifier {
-            self.write_ws(qualifier.to_string().as_str());
-            if !node.indicators.is_empty() {
-                self.write_ws(",");
-            }
+            self.visit_action_qualifier(qualifier)?;
+        }
+
+        // The indicators follow a comma even when there is no qualifier
+        if !node.indicators.is_empty() {
+            self.write_ws(",");
         }
 
         visit_comma_separated!(self, node.indicators.iter(), Id);
         self.write_ws(");");
 
+        Ok(())
+    }
+
+    // 2.6.4.4
+    fn visit_action_qualifier(
+        &mut self,
+        node: &dsl::sfc::ActionQualifier,
+    ) -> Result<Self::Value, Diagnostic> {
+        use dsl::sfc::ActionQualifier;
+        let (name, time) = match node {
+            ActionQualifier::N => ("N", None),
+            ActionQualifier::R => ("R", None),
+            ActionQualifier::S => ("S", None),
+            ActionQualifier::L => ("L", None),
+            ActionQualifier::D => ("D", None),
+            ActionQualifier::P => ("P", None),
+            ActionQualifier::SD(time) => ("SD", Some(time)),
+            ActionQualifier::DS(time) => ("DS", Some(time)),
+            ActionQualifier::SL(time) => ("SL", Some(time)),
+            ActionQualifier::PR(time) => ("P1", Some(time)),
+            ActionQualifier::PF(time) => ("P0", Some(time)),
+        };
+
+        self.write_ws(name);
+        if let Some(time) = time {
+            self.write_ws(",");
+            self.visit_action_time_kind(time)?;
+        }
         Ok(())
     }
 
